@@ -6,7 +6,9 @@ import random
 
 from harness import core, sexp
 
-SECRET_NAMES = ['secret', 'secret_key', 'db_secret', 'api_secret_token', 'mysecretholder', 'top_secret_pin', 'oauth_secrets', 'xsecretx']
+SECRET_NAMES = ['secret', 'secret_key', 'db_secret', 'api_secret_token', 'mysecretholder', 'top_secret_pin', 'oauth_secrets', 'xsecretx',
+                # long names: 'secret' straddling or beyond any display width
+                'stripe_webhook_endpoint_signing_secret', 'partner_reporting_gateway_secret_token', 'x' * 40 + '_secret_' + 'y' * 40]
 PLAIN_NAMES = ['db', 'config', 'Secret', 'SECRET_UPPER', 'cache', 'secre', 'sec_ret', 'version']
 PREFIXES = ['/meta', '/_meta/', '/a/b/meta']
 
@@ -84,6 +86,12 @@ def build_host(case, variant):
         mws.append(SignedCookieMiddleware(secret_key=key.encode()))
     if case['getparam_mw']:
         mws.append(GetParamMiddleware(['q']))
+    if case.get('ctx_mw') == 'simple':
+        from clastic.middleware import SimpleContextProcessor
+        mws.append(SimpleContextProcessor())              # the meta application uses a middleware of this type itself
+    elif case.get('ctx_mw') == 'plain':
+        from clastic.middleware import ContextProcessor
+        mws.append(ContextProcessor())
 
     def ep_plain():
         return Response('x')
@@ -200,7 +208,7 @@ def gen_case(rng, tier):
         plain.append([n, rng.choice([['str', 'value-of-' + n], ['num', 12345], ['long'], ['list'], ['markup'], ['decimal'], ['fraction'],
                                      ['complex'],
                                      ['badrepr'] if rng.random() < 0.15 else ['str', 'v']])])
-    return {'consumers': [rng.choice([None, 'function', 'default', 'method', 'callable']) for _ in range(8)],
+    return {'ctx_mw': rng.choice([None, None, 'simple', 'plain']), 'consumers': [rng.choice([None, 'function', 'default', 'method', 'callable']) for _ in range(8)],
             'secrets': secrets, 'plain': plain, 'cookie_mw': rng.random() < 0.6, 'getparam_mw': rng.random() < 0.3,
             'static': rng.random() < 0.3, 'embedded_app': rng.random() < 0.3, 'meta_depth': rng.choice([0, 0, 1, 2]),
             'prefix': rng.choice(PREFIXES)}
